@@ -77,13 +77,25 @@ impl Check for RestartingSpeaker {
 
     fn info(&self) -> CheckInfo {
         CheckInfo {
-            rule: "1-3 configured peers with GR family sets drawn from {none, v4, v6, v4+v6}, selection-deferral timer disabled / 30 s / 360 s; history of peer (re)establishment with any negotiated GR family subset (or no GR), announcements into deferred and non-deferred families, End-of-RIB per family, peer drops, waits across the timer; an extra observer peer without GR records what is advertised. Reference: set algebra of pending (peer, family) pairs from the statement. At every quiescent point: no route of a still-deferred family is advertised; when the last pending pair of a family clears (or the timer fires) every prefix received meanwhile is advertised exactly once; the restarting flag (and the R-bit in new OPENs) is set iff the reference says deferral is in progress; a peer without GR never blocks; with the timer enabled deferral ends within timer + 1 s of the first helper's establishment. non-trivial = a route was received while its family was deferred".into(),
+            rule: "1-3 configured peers with GR family sets drawn from {none, v4, v6, v4+v6}, selection-deferral timer disabled / 30 s / 360 s; history of peer (re)establishment with any negotiated GR family subset (or no GR), announcements into deferred and non-deferred families, End-of-RIB per family, peer drops, waits across the timer; an extra observer peer without GR records what is advertised. Reference: set algebra of pending (peer, family) pairs from the statement. At every quiescent point: no route of a still-deferred family is advertised; when the last pending pair of a family clears (or the timer fires) every prefix received meanwhile is advertised exactly once, and an End-of-RIB (also a repeated one), a session coming up or time passing that leaves the RIB unchanged announces nothing of an already released family again; the restarting flag (and the R-bit in new OPENs) is set iff the reference says deferral is in progress; a peer without GR never blocks; with the timer enabled deferral ends within timer + 1 s of the first helper's establishment. non-trivial = a route was received while its family was deferred".into(),
             components_real: vec!["gr::RestartingDeferral".into(), "process_restarting_outputs, gr_selection_deferral_timer_expired, PeerSession::process_effects (GrSessionEstablished / GrEorReceived), PeerSession::run (PeerWithdrawn)".into(), "TableManager::{start_deferral_families,end_deferral_families}, table::Table::{insert,start_deferral,end_deferral}".into(), "fsm::PeerFsm::on_connected (R-bit)".into()],
             components_stubbed: vec!["TCP, clock, listener loop, helper peers and the observer; the start-up sequence of Global::serve that creates the deferral machine is copied into the harness (same calls)".into()],
             assumptions: vec![],
             bounds: "<=36 ops, <=3 helper peers + 1 observer, 2 families, 4 prefixes each".into(),
         }
     }
+}
+
+fn rib_digest(t: &Topo) -> String {
+    let mut v: Vec<String> = Vec::new();
+    for f in FAMS {
+        for c in t.w.tables.collect_loc_rib_paths(f).iter() {
+            let paths: Vec<String> = c.current_paths.iter().map(|p| format!("{}|{:?}|{:?}", p.source.remote_addr, p.nexthop, p.attr)).collect();
+            v.push(format!("{:?}={}", c.net, paths.join(";")));
+        }
+    }
+    v.sort();
+    v.join("\n")
 }
 
 async fn run(case: Json, tol: Tolerate) -> Outcome {
@@ -198,6 +210,9 @@ async fn run(case: Json, tol: Tolerate) -> Outcome {
                 continue;
             }
         }
+        // what the RIB holds and what the observer was sent so far, to tell a repeated release from a change
+        let rib_before = rib_digest(&t);
+        let reach_before = t.nodes[obs].spk.reach_count.clone();
         match tag.as_str() {
             "up" => {
                 if t.nodes[p].spk.conn.is_some() {
@@ -338,6 +353,16 @@ async fn run(case: Json, tol: Tolerate) -> Outcome {
                     let missing: Vec<_> = want.difference(&have).collect();
                     let extra: Vec<_> = have.difference(&want).collect();
                     fail!(if !missing.is_empty() { "release/prefix-received-during-deferral-never-announced" } else { "release/observer-holds-unexpected-prefix" }, "op {} {}: family {}: missing {:?} extra {:?}", opi, op.to_compact(), fam, missing, extra);
+                }
+                // a family released earlier is not released again: an End-of-RIB, a session coming up or time
+                // passing, none of which changed the RIB, announces nothing a second time
+                if !prev_deferred.contains(&fam) && !unjudged && matches!(tag.as_str(), "eor" | "up" | "wait") && rib_digest(&t) == rib_before {
+                    for (k, n) in t.nodes[obs].spk.reach_count.iter().filter(|(k, _)| k.0 == fk) {
+                        let before = reach_before.get(k).copied().unwrap_or(0);
+                        if *n > before {
+                            fail!("release/prefix-announced-again-although-nothing-changed", "op {} {}: {:?} announced {} more time(s) to the observer; family {} was released before this op and the RIB is unchanged", opi, op.to_compact(), k, *n - before, fam);
+                        }
+                    }
                 }
                 if prev_deferred.contains(&fam) {
                     // the family was released by this very op: everything held back is announced exactly once
